@@ -1,6 +1,7 @@
 package main
 
 import (
+	"runtime/debug"
 	"bytes"
 	"encoding/hex"
 	"encoding/json"
@@ -110,6 +111,7 @@ type GenResult struct {
 	Err    string            // "" when Generate returned nil error
 	Stderr string
 	Panic  string // recovered panic value, "" if none
+	PanicSite string // the innermost sqlc function on the panicking stack
 	Timeout bool
 }
 
@@ -144,6 +146,7 @@ func generateDir(dir string) GenResult {
 		err   error
 		se    string
 		panic string
+		site  string
 	}
 	ch := make(chan res, 1)
 	go func() {
@@ -152,6 +155,7 @@ func generateDir(dir string) GenResult {
 		defer func() {
 			if p := recover(); p != nil {
 				r.panic = fmt.Sprint(p)
+				r.site = panicSite(debug.Stack())
 			}
 			r.se = stderr.String()
 			ch <- r
@@ -160,7 +164,7 @@ func generateDir(dir string) GenResult {
 	}()
 	select {
 	case r := <-ch:
-		g := GenResult{Files: map[string]string{}, Stderr: r.se, Panic: r.panic}
+		g := GenResult{Files: map[string]string{}, Stderr: r.se, Panic: r.panic, PanicSite: r.site}
 		if r.err != nil {
 			g.Err = r.err.Error()
 		}
@@ -180,6 +184,27 @@ func generate(files map[string]string) GenResult {
 	dir := writeTree(files)
 	defer os.RemoveAll(dir)
 	return generateDir(dir)
+}
+
+// panicSite: the innermost function of the sqlc module on a panicking goroutine's stack (the frames above
+// runtime.gopanic are the deferred recover machinery)
+func panicSite(stack []byte) string {
+	lines := strings.Split(string(stack), "\n")
+	after := false
+	for _, l := range lines {
+		if strings.HasPrefix(l, "panic(") || strings.HasPrefix(l, "runtime.gopanic") {
+			after = true
+			continue
+		}
+		if after && strings.HasPrefix(l, "github.com/kyleconroy/sqlc/") {
+			fn := strings.TrimPrefix(l, "github.com/kyleconroy/sqlc/")
+			if i := strings.LastIndex(fn, "("); i > 0 {
+				fn = fn[:i]
+			}
+			return fn
+		}
+	}
+	return "?"
 }
 
 func sortStrings(xs []string) { sort.Strings(xs) }
